@@ -14,6 +14,12 @@ against the Lean model PgFdr.C09 (ops pepmap, pepmap1, fasta, ibaq, mapfile).  M
 Oracle: from the abstract records the generator rendered (not from the lines): identifiers by the chosen rule,
 decoys = reversed sequence with the sequential special-residue swap, per-record brute-force substring
 digestion with the declarative rule of C08, "each once and in database order".
+
+Cases of kind "maps" drive the builder of the list of maps, one per digestion parameter set
+(peptide_protein_map.get_peptide_to_protein_maps / _from_args, digestion_params.get_digestion_params_list, the real
+argparse parsers of picked_group_fdr.picked_group_fdr and .quantification, entrapment.mark_entrapment_proteins) against
+the model op `pepmaps` (PgFdr/Model/C09Maps.lean); oracle: the i-th map is the independent listing of the database
+under exactly the i-th parameter set (every field), the file branch returns what each file says.
 """
 import os
 import sys
@@ -119,6 +125,72 @@ def counts_of_map(m):
     return c
 
 
+# ------------------------------------------------------------------------------------------
+# the list of maps, one per digestion parameter set (kind "maps"): independent statements
+# ------------------------------------------------------------------------------------------
+MAPS_FRACTION = 1 / 6
+LIST_FIELDS = ("enzyme", "digestion", "min", "max", "mc", "special")
+OPTION_OF = {"enzyme": "--enzyme", "digestion": "--digestion", "min": "--min-length", "max": "--max-length",
+             "mc": "--cleavages", "special": "--special-aas"}
+SPECIALS = ["KR", "none", "K", "KRM", "R", "M"]
+
+
+def rule_of_flags(fl):
+    """the identifier rule the command line chooses"""
+    if fl["gene_level"] and not fl["pseudo"]:
+        return "gene"
+    return "uniprot" if fl["uniprot"] else "first_space"
+
+
+def sets_of_lists(lists, contains_decoys):
+    """the parameter sets a command line states: the i-th value of every option, an option given once holds for
+    every set; options given several times must agree in number ("unequal_lengths" otherwise)"""
+    lens = {len(v) for v in lists.values() if len(v) != 1}
+    if len(lens) > 1:
+        return "unequal_lengths"
+    n = max(lens) if lens else 1
+    out = []
+    for i in range(n):
+        st = {f: (lists[f][0] if len(lists[f]) == 1 else lists[f][i]) for f in LIST_FIELDS}
+        st.update(db="target" if contains_decoys else "concat", met=True)
+        out.append(st)
+    return out
+
+
+def sets_of_objs(objs):
+    """the parameter sets a list of DigestionParams objects states (constructor arguments, then assigned attributes)"""
+    out = []
+    for o in objs:
+        st = {f: o[f] for f in LIST_FIELDS}
+        st["db"] = o["db"] if o["db"] is not None else ("target" if o["contains_decoys"] else "concat")
+        st["met"] = True if o["met"] is None else o["met"]
+        out.append(st)
+    return out
+
+
+def json_key(x):
+    import json
+
+    return json.dumps(x, sort_keys=True)
+
+
+def read_map_spec(text):
+    """what a quote-free tab-separated map file with \\r\\n line ends says: peptide -> proteins, rows of one peptide
+    appended; "index_error" for a row without a second column"""
+    if text.startswith("\ufeff"):
+        text = text[1:]
+    rows = text.split("\r\n")
+    if rows and rows[-1] == "":
+        rows.pop()
+    d = {}
+    for r in rows:
+        f = r.split("\t")
+        if len(f) < 2:
+            return "index_error"
+        d.setdefault(f[0], []).extend(f[1].split(";"))
+    return d
+
+
 class P(Prop):
     id = "C09"
     # True: a map call on parameter objects that an earlier iBAQ call rewrote must still return the map of the REQUESTED
@@ -126,8 +198,8 @@ class P(Prop):
     # property text does not speak about argument objects, so this is recorded (feature "args_rewritten_by=") and every
     # such call is only required to be a function of the field values it reads (same result on fresh objects).
     strict_requested_params = False
-    quick_cases = 4000
-    thorough_cases = 50000
+    quick_cases = 4800
+    thorough_cases = 60000
     chunk = 100
     rule = (
         "one case = 1-3 FASTA files of 1-5 records (sequences of 2-31 residues, 1% empty, built from a shared pool of 2-5 pieces over a "
@@ -136,7 +208,15 @@ class P(Prop):
         "'> x' headers, text before the first header) x 1-3 DigestionParams (enzyme of the table, full/semi/none, window, "
         "budget, special residues KR/K/KRM/none, fasta_contains_decoys) x identifier rule x lookups x per-parameter-set maps x iBAQ x map-file round trip; "
         "25% direct get_peptide_to_protein_map calls incl. db=decoy; non-trivial = a non-empty map with a peptide listed by "
-        ">= 2 proteins or a decoy; distinct by sha1 of the case"
+        ">= 2 proteins or a decoy; distinct by sha1 of the case.  1/6 of the cases are of kind 'maps' (the list of maps, one "
+        "per digestion parameter set, of `python -m picked_group_fdr` / `.quantification`): 1-4 parameter sets that are identical, "
+        "differ in exactly ONE field (enzyme / digestion / min / max / cleavages / special-aas KR,none,K,KRM,R,M; db target,decoy,"
+        "concat and methionine_cleavage for object lists), in two fields or everywhere; given as command-line option lists through "
+        "the real argparse parsers (an option whose values agree usually given once, 4% lists of unequal length) to "
+        "get_peptide_to_protein_maps_from_args with random --gene_level / --fasta_use_uniprot_id / pseudo-gene flags, or as "
+        "DigestionParams objects to get_peptide_to_protein_maps; FASTA input, --peptide_protein_map files alone (generated texts, "
+        "4% with a one-column row, BOM), both, neither; 15% with a protein-groups file (half of them naming entrapment proteins); "
+        "70% of the eligible cases also write every map with the digest tool and load the files back as a list"
     )
     assumptions = [
         "FASTA text is ASCII; Python's text-mode line iteration splits at \\n after universal-newline translation",
@@ -147,6 +227,8 @@ class P(Prop):
 
     # ------------------------------------------------------------------ generation
     def gen_case(self, rng, tier):
+        if rng.random() < MAPS_FRACTION:
+            return self._gen_maps_case(rng)
         rules = rule_table()
         names = list(rules)
         direct = rng.random() < 0.25
@@ -204,6 +286,46 @@ class P(Prop):
         pieces = ["".join(rng.choice(al) for _ in range(rng.randint(2, 8))) for _ in range(rng.randint(2, 5))]
         nfiles = 1 if direct else rng.choice([1, 1, 1, 2, 3])
         idstyle = rng.choice(["plain", "uniprot", "uniprot"])
+        files, allseq = self._gen_files(rng, pieces, nfiles, idstyle, contains_decoys)
+        lookups = []
+        for _ in range(rng.randint(1, 4)):
+            s = rng.choice(allseq) if allseq else ""
+            if rng.random() < 0.4:
+                s = decoy_spec(s, special_list(special))
+            if s:
+                a = rng.randint(0, len(s) - 1)
+                b = min(len(s), a + rng.randint(1, 12))
+                lookups.append(s[a:b])
+            else:
+                lookups.append("".join(rng.choice(al) for _ in range(rng.randint(1, 8))))
+        parse_id = rng.choice(["first_space", "first_space", "uniprot", "gene"])
+        case = {"files": files, "parse_id": parse_id, "lookups": lookups, "flag_variant": rng.randint(0, 1)}
+        if direct:
+            p = params[0]
+            r = rules[p["enzyme"]]
+            case.update(
+                kind="direct",
+                db=rng.choice(["target", "decoy", "concat", "concat"]),
+                pre="".join(r["pre"]),
+                not_post="".join(r["not_post"]),
+                post="".join(r["post"]),
+                digestion=p["digestion"],
+                min=p["min"],
+                max=p["max"],
+                mc=p["mc"],
+                met=rng.random() < 0.6,
+                hash=(p["digestion"] == "none") if rng.random() < 0.9 else rng.random() < 0.5,
+                special="" if special == "none" else special,
+            )
+        else:
+            case.update(kind="params", params=params, ibaq=rng.random() < 0.5, mapfile=rng.random() < 0.4)
+            # call sequences on ONE list of DigestionParams objects (what digest.main and other callers do)
+            case["seq"] = rng.choice(SEQUENCES) if rng.random() < 0.35 else None
+        return case
+
+    @staticmethod
+    def _gen_files(rng, pieces, nfiles, idstyle, contains_decoys):
+        """1-3 FASTA files (abstract records + rendered lines); the rng call order is part of the case streams"""
         files, k, allseq = [], 0, []
         for _ in range(nfiles):
             recs = []
@@ -245,41 +367,7 @@ class P(Prop):
                     "final_newline": rng.random() < 0.85,
                 }
             )
-        lookups = []
-        for _ in range(rng.randint(1, 4)):
-            s = rng.choice(allseq) if allseq else ""
-            if rng.random() < 0.4:
-                s = decoy_spec(s, special_list(special))
-            if s:
-                a = rng.randint(0, len(s) - 1)
-                b = min(len(s), a + rng.randint(1, 12))
-                lookups.append(s[a:b])
-            else:
-                lookups.append("".join(rng.choice(al) for _ in range(rng.randint(1, 8))))
-        parse_id = rng.choice(["first_space", "first_space", "uniprot", "gene"])
-        case = {"files": files, "parse_id": parse_id, "lookups": lookups, "flag_variant": rng.randint(0, 1)}
-        if direct:
-            p = params[0]
-            r = rules[p["enzyme"]]
-            case.update(
-                kind="direct",
-                db=rng.choice(["target", "decoy", "concat", "concat"]),
-                pre="".join(r["pre"]),
-                not_post="".join(r["not_post"]),
-                post="".join(r["post"]),
-                digestion=p["digestion"],
-                min=p["min"],
-                max=p["max"],
-                mc=p["mc"],
-                met=rng.random() < 0.6,
-                hash=(p["digestion"] == "none") if rng.random() < 0.9 else rng.random() < 0.5,
-                special="" if special == "none" else special,
-            )
-        else:
-            case.update(kind="params", params=params, ibaq=rng.random() < 0.5, mapfile=rng.random() < 0.4)
-            # call sequences on ONE list of DigestionParams objects (what digest.main and other callers do)
-            case["seq"] = rng.choice(SEQUENCES) if rng.random() < 0.35 else None
-        return case
+        return files, allseq
 
     # ------------------------------------------------------------------ implementation
     @staticmethod
@@ -330,6 +418,8 @@ class P(Prop):
         return {"map": {k: list(v) for k, v in m.items()}, "seqs": seqs, "lookups": lk}, list(m.items())
 
     def run_impl(self, case):
+        if case["kind"] == "maps":
+            return self._run_maps(case)
         from picked_group_fdr import digest
 
         out = {}
@@ -519,6 +609,8 @@ class P(Prop):
 
     # ------------------------------------------------------------------ model
     def model_request(self, case, impl_out):
+        if case["kind"] == "maps":
+            return self._maps_request(case, impl_out)
         files = [self._model_lines(f) for f in case["files"]]
         reqs = []
         if case["kind"] == "direct":
@@ -560,6 +652,8 @@ class P(Prop):
         return bool(case.get("ibaq")) or (isinstance(impl_out, dict) and ("tool" in impl_out or "seq" in impl_out))
 
     def model_view(self, case, resp, impl_out):
+        if case["kind"] == "maps":
+            return self._maps_view(case, resp, impl_out)
         out = {}
         it = iter(resp)
         fa = next(it)
@@ -659,6 +753,8 @@ class P(Prop):
         return jobs, recs, hashed, windows, plain
 
     def oracle(self, case, impl_out):
+        if case["kind"] == "maps":
+            return self._maps_oracle(case, impl_out)
         if not isinstance(impl_out, dict) or "main" not in impl_out:
             return "no output"
         exp = self._expected(case)
@@ -804,14 +900,498 @@ class P(Prop):
         o = rec.get("oracle")
         return isinstance(o, str) and o.startswith("multi-params:") and rec.get("disagree") is None
 
+    # ==================================================================================================
+    # kind "maps": the list of maps, one per digestion parameter set, as `python -m picked_group_fdr` and
+    # `.quantification` build it (peptide_protein_map.get_peptide_to_protein_maps / _from_args)
+    # ==================================================================================================
+    @staticmethod
+    def _variants(field, base, rng, rules):
+        """values of one field that differ from `base`"""
+        if field == "enzyme":
+            names = list(rules)
+            r0 = rules.get(base)
+            sib = [n for n in names if r0 and n != base and rules[n]["pre"] == r0["pre"] and rules[n]["post"] == r0["post"]]
+            out = sib + [rng.choice(names) for _ in range(3)] + ["trypsin", "lys-c"]
+        elif field == "digestion":
+            out = ["full", "semi", "none"]
+        elif field == "min":
+            out = [max(1, base - 1), base + 1, base + 2]
+        elif field == "max":
+            out = [base + 1, base + 2, base + 5, max(1, base - 1)]
+        elif field == "mc":
+            out = [0, 1, 2]
+        elif field == "special":
+            out = list(SPECIALS)
+        elif field == "db":
+            out = ["target", "decoy", "concat"]
+        else:  # met
+            out = [True, False]
+        out = [x for x in out if x != base]
+        rng.shuffle(out)
+        return out
+
+    def _gen_maps_case(self, rng):
+        rules = rule_table()
+        names = list(rules)
+        entry = rng.choice(["args"] * 5 + ["objs"] * 3 + ["mapfiles"])
+        n = rng.choice([2, 2, 3, 3, 4])
+        mn = rng.choice([1, 2, 2, 3, 3, 4, 5, 6])
+
+        def random_set():
+            m = rng.choice([1, 2, 2, 3, 3, 4, 5, 6])
+            return {
+                "enzyme": rng.choice(names + ["trypsin", "trypsin", "lys-c", "lys-n"]),
+                "digestion": rng.choice(["full", "full", "full", "semi", "none"]),
+                "min": m,
+                "max": m + rng.choice([0, 1, 3, 6, 10, 25]),
+                "mc": rng.choice([0, 0, 1, 2]),
+                "special": rng.choice(["KR", "KR", "none", "K", "KRM", "R"]),
+                "db": None,
+                "met": None,
+            }
+
+        base = random_set()
+        base["min"], base["max"] = mn, mn + rng.choice([0, 1, 3, 6, 10, 25])
+        fields = list(LIST_FIELDS) + (["db", "db", "met"] if entry == "objs" else [])
+        pattern = rng.choice(["one_field"] * 7 + ["two_fields", "identical", "everywhere", "one_set"])
+        varied = []
+        if pattern == "one_set":
+            n = 1
+        if pattern in ("one_field", "two_fields"):
+            # special-residue settings twice as likely as any other field: they only show in the decoys
+            varied = rng.sample(fields + ["special"], 1 if pattern == "one_field" else 2)
+        if pattern == "everywhere":
+            sets = [base] + [random_set() for _ in range(n - 1)]
+        else:
+            sets = [dict(base) for _ in range(n)]
+            for f in dict.fromkeys(varied):
+                b = base[f]
+                if f == "db":
+                    b = "concat"
+                elif f == "met":
+                    b = True
+                vs = self._variants(f, b, rng, rules)
+                for i in range(1, n):
+                    # a later set may fall back to the base value: equal sets at a distance
+                    sets[i][f] = b if (i > 1 and rng.random() < 0.25) else vs[(i - 1) % len(vs)]
+                if f in ("db", "met"):
+                    sets[0][f] = b if rng.random() < 0.5 else None
+        if rng.random() < 0.01:
+            sets[rng.randrange(len(sets))]["enzyme"] = "trypsinx"
+        contains_decoys = rng.random() < 0.3
+        flags = {"gene_level": rng.random() < 0.3, "uniprot": rng.random() < 0.35, "pseudo": rng.random() < 0.4}
+        # --- FASTA files
+        al = []
+        for st in sets:
+            r = rules.get(st["enzyme"], rules["trypsin"])
+            for x in alphabet(r, rng)[: 5 if not al else 2]:
+                if x not in al:
+                    al.append(x)
+        if "special" in varied or rng.random() < 0.6:
+            for x in "KR":
+                if x not in al:
+                    al.append(x)
+        pieces = ["".join(rng.choice(al) for _ in range(rng.randint(2, 8))) for _ in range(rng.randint(2, 5))]
+        idstyle = rng.choice(["plain", "uniprot", "uniprot"])
+        files, allseq = self._gen_files(rng, pieces, rng.choice([1, 1, 1, 2]), idstyle, contains_decoys)
+        lookups = []
+        for _ in range(rng.randint(0, 3)):
+            sq = rng.choice(allseq) if allseq else ""
+            if rng.random() < 0.4:
+                sq = decoy_spec(sq, special_list(base["special"]))
+            if sq:
+                a = rng.randint(0, len(sq) - 1)
+                lookups.append(sq[a : min(len(sq), a + rng.randint(1, 12))])
+        case = {"kind": "maps", "entry": entry, "pattern": pattern + (":" + varied[0] if len(varied) == 1 else ""),
+                "files": files, "mapfiles": [], "lookups": lookups, "pg": None, "via_files": False}
+        # --- a protein-groups file (entrapment marking): usually none
+        if rng.random() < 0.15:
+            with_entrapment = rng.random() < 0.5
+            ids = []
+            for f in files:
+                for h, _ in f["records"] or []:
+                    for rl in PARSE:
+                        pid = parse_id_spec(rl, h)
+                        if pid:
+                            ids.append(pid)
+            ids = sorted(set(ids)) or ["P1"]
+            groups = []
+            for _ in range(rng.randint(1, 3)):
+                g = []
+                for _ in range(rng.randint(1, 3)):
+                    x = rng.choice(ids)
+                    if rng.random() < 0.3:
+                        x = "REV__" + x
+                    if with_entrapment and rng.random() < 0.5:
+                        x += "_entrapment"
+                    g.append(x)
+                groups.append(g)
+            case["pg"] = groups
+        if entry == "objs":
+            case["parse_id"] = rng.choice(["first_space", "first_space", "uniprot", "gene"])
+            case["objs"] = [
+                {**{f: st[f] for f in LIST_FIELDS}, "contains_decoys": contains_decoys, "db": st["db"], "met": st["met"]}
+                for st in sets
+            ]
+            return case
+        # --- option lists as they stand on the command line: an option whose values agree is usually given once
+        lists = {}
+        for f in LIST_FIELDS:
+            vals = [st[f] for st in sets]
+            lists[f] = [vals[0]] if (len(set(vals)) == 1 and rng.random() < 0.75) else vals
+        if rng.random() < 0.04:
+            f = rng.choice(LIST_FIELDS)
+            lists[f] = lists[f] + [lists[f][-1]] if rng.random() < 0.6 or len(lists[f]) < 3 else lists[f][:-1]
+        case.update(lists=lists, contains_decoys=contains_decoys, flags=flags, parser=rng.choice(["main", "main", "quant"]))
+        if entry == "mapfiles":
+            case["files"] = []
+            case["pg"] = case["pg"] if rng.random() < 0.5 else None
+            case["mapfiles"] = [] if rng.random() < 0.03 else [self._gen_mapfile(rng, al) for _ in range(rng.choice([1, 1, 2, 3]))]
+        else:
+            if rng.random() < 0.1:  # map files next to FASTA files are not looked at
+                case["mapfiles"] = [self._gen_mapfile(rng, al)]
+            case["via_files"] = rng.random() < 0.7
+        return case
+
+    @staticmethod
+    def _gen_mapfile(rng, al):
+        rows = []
+        peps = ["".join(rng.choice(al) for _ in range(rng.randint(1, 7))) for _ in range(rng.randint(1, 4))]
+        for _ in range(rng.randint(0, 5)):
+            pep = rng.choice(peps)
+            prots = [rng.choice(["", "REV__", "CON__"]) + rng.choice(["P1", "P2", "P3", "sp|Q1|N1_X", "G2"]) for _ in range(rng.randint(1, 3))]
+            rows.append(pep + "\t" + ";".join(prots))
+        if rows and rng.random() < 0.04:
+            rows[rng.randrange(len(rows))] = rng.choice(peps)  # a row without a second column
+        text = "\r\n".join(rows) + ("\r\n" if rows and rng.random() < 0.9 else "")
+        if rng.random() < 0.1:
+            text = "﻿" + text
+        return text
+
+    # ------------------------------------------------------------------ maps: the real code
+    @staticmethod
+    def _maps_rule(case):
+        return case["parse_id"] if case["entry"] == "objs" else rule_of_flags(case["flags"])
+
+    @staticmethod
+    def _maps_sets(case):
+        if case["entry"] == "objs":
+            return sets_of_objs(case["objs"])
+        return sets_of_lists(case["lists"], case["contains_decoys"])
+
+    @staticmethod
+    def _option_argv(lists, contains_decoys):
+        argv = []
+        for f in LIST_FIELDS:
+            argv += [OPTION_OF[f], *[str(x) for x in lists[f]]]
+        if contains_decoys:
+            argv.append("--fasta_contains_decoys")
+        return argv
+
+    def _parse_argv(self, case, argv):
+        from picked_group_fdr import picked_group_fdr as main_tool, quantification
+
+        if case["parser"] == "quant":
+            return quantification.parse_args(argv + ["--protein_groups_out", "unused_out.txt"])
+        return main_tool.parse_args(argv)
+
+    def _via_files_applicable(self, case, sets):
+        return (
+            case["entry"] == "args" and case.get("via_files") and case["pg"] is None and isinstance(sets, list)
+            and self._maps_rule(case) == "first_space"
+            and all(eff_mode(st["enzyme"], st["digestion"]) != "none" for st in sets)
+        )
+
+    def _run_maps(self, case):
+        from picked_group_fdr import digest
+        from picked_group_fdr import peptide_protein_map as ppm
+        from picked_group_fdr.digestion_params import DigestionParams
+
+        out = {}
+        sets = self._maps_sets(case)
+        with tempfile.TemporaryDirectory(prefix="c09m_") as d:
+            paths = self._write_files(case, d)
+            mpaths = []
+            for i, text in enumerate(case["mapfiles"]):
+                mp = os.path.join(d, f"given_map{i}.tsv")
+                with open(mp, "wb") as fh:
+                    fh.write(text.encode("utf-8"))
+                mpaths.append(mp)
+            pgpath = None
+            if case["pg"] is not None:
+                pgpath = os.path.join(d, "proteinGroups.txt")
+                with open(pgpath, "w", newline="") as fh:
+                    fh.write("Protein IDs\tScore\r\n" + "".join(";".join(g) + f"\t{10 - i}.5\r\n" for i, g in enumerate(case["pg"])))
+
+            def guarded(fn):
+                try:
+                    return fn()
+                except ValueError as e:
+                    if "unequal length" in str(e):
+                        return {"err": "unequal_lengths"}
+                    if "No fasta or peptide to protein mapping file" in str(e):
+                        return {"err": "no_input"}
+                    raise
+                except KeyError as e:
+                    if isinstance(sets, list) and any(st["enzyme"] not in digest.ENZYME_CLEAVAGE_RULES for st in sets):
+                        return {"err": "unknown_enzyme"}
+                    return {"err": "key_error"}
+                except (IndexError, AttributeError) as e:
+                    return {"err": self._errname(e)}
+
+            if case["entry"] == "objs":
+                def build():
+                    ps = []
+                    for o in case["objs"]:
+                        q = DigestionParams(o["enzyme"], o["digestion"], o["min"], o["max"], o["mc"], o["special"], o["contains_decoys"])
+                        if o["db"] is not None:
+                            q.db = o["db"]
+                        if o["met"] is not None:
+                            q.methionine_cleavage = o["met"]
+                        ps.append(q)
+                    return ppm.get_peptide_to_protein_maps(paths, mpaths or None, ps, pgpath, parse_id=self._parse_fn(case["parse_id"]))
+            else:
+                fl = case["flags"]
+                argv = (["--fasta", *paths] if paths else []) + (["--peptide_protein_map", *mpaths] if mpaths else [])
+                argv += self._option_argv(case["lists"], case["contains_decoys"])
+                argv += (["--gene_level"] if fl["gene_level"] else []) + (["--fasta_use_uniprot_id"] if fl["uniprot"] else [])
+                argv += ["--mq_protein_groups", pgpath] if pgpath else []
+
+                def build():
+                    return ppm.get_peptide_to_protein_maps_from_args(self._parse_argv(case, argv), fl["pseudo"])
+
+            res = guarded(build)
+            if isinstance(res, dict):
+                out["maps"] = res
+            else:
+                out["maps"] = [self._result_view(digest, m, case["lookups"])[0] for m in res]
+            # --- every map written by the digest tool under ITS parameter set, the files handed back to the list
+            #     builder through --peptide_protein_map: the maps must come back unchanged
+            if isinstance(out["maps"], list) and self._via_files_applicable(case, sets):
+                wpaths = []
+                for i, st in enumerate(sets):
+                    wp = os.path.join(d, f"written_map{i}.tsv")
+                    one = {f: [st[f]] for f in LIST_FIELDS}
+                    wargv = ["digest", "--fasta", *paths, *self._option_argv(one, case["contains_decoys"]), "--peptide_protein_map", wp]
+                    old = sys.argv
+                    sys.argv = wargv
+                    try:
+                        digest.main(wargv[1:])
+                    finally:
+                        sys.argv = old
+                    wpaths.append(wp)
+                argv2 = ["--peptide_protein_map", *wpaths] + self._option_argv(case["lists"], case["contains_decoys"])
+                back = guarded(lambda: ppm.get_peptide_to_protein_maps_from_args(self._parse_argv(case, argv2), case["flags"]["pseudo"]))
+                out["via_files"] = back if isinstance(back, dict) else [{k: list(v) for k, v in dict(m).items()} for m in back]
+        return out
+
+    # ------------------------------------------------------------------ maps: the model
+    def _maps_request(self, case, impl_out):
+        req = {
+            "op": "pepmaps",
+            "fasta": [self._model_lines(f) for f in case["files"]],
+            "mapfiles": case["mapfiles"],
+            "groups": case["pg"],
+            "lookups": case["lookups"],
+            "file_back": isinstance(impl_out, dict) and "via_files" in impl_out,
+        }
+        if case["entry"] == "objs":
+            req["objs"] = {"params": case["objs"], "parse_id": case["parse_id"]}
+        else:
+            fl = case["flags"]
+            req["args"] = dict(case["lists"], contains_decoys=case["contains_decoys"], gene_level=fl["gene_level"],
+                               pseudo=fl["pseudo"], uniprot=fl["uniprot"])
+        return [req]
+
+    def _maps_view(self, case, resp, impl_out):
+        r = resp[0]
+        if "maps" not in r:
+            return {"maps": r}
+        out = {"maps": [
+            {"map": {k: v for k, v in m["map"]}, "seqs": None if m["seqs"] is None else {k: v for k, v in m["seqs"]},
+             "lookups": m["lookups"]}
+            for m in r["maps"]
+        ]}
+        if isinstance(impl_out, dict) and "via_files" in impl_out:
+            fb = [m["file_back"] for m in r["maps"]]
+            errs = [x for x in fb if isinstance(x, dict)]
+            out["via_files"] = errs[0] if errs else [{k: v for k, v in x} for x in fb]
+        return out
+
+    # ------------------------------------------------------------------ maps: the property
+    def _maps_oracle(self, case, impl_out):
+        if not isinstance(impl_out, dict) or "maps" not in impl_out:
+            return "no output"
+        maps = impl_out["maps"]
+        rules = rule_table()
+        sets = self._maps_sets(case)
+        if sets == "unequal_lengths":
+            return None if maps == {"err": "unequal_lengths"} else f"option lists of unequal length {case['lists']} were accepted: {str(maps)[:200]}"
+        if not case["files"]:
+            # --- the file branch: one map per file, each what the file says
+            if not case["mapfiles"]:
+                return None if maps == {"err": "no_input"} else "neither FASTA nor map files, but no refusal"
+            want = [read_map_spec(t) for t in case["mapfiles"]]
+            if any(w == "index_error" for w in want):
+                return None if maps == {"err": "index_error"} else f"a map file with a one-column row was read as {str(maps)[:200]}"
+            if isinstance(maps, dict):
+                return f"reading the map files raised {maps['err']}"
+            if len(maps) != len(want):
+                return f"{len(want)} map files but {len(maps)} maps"
+            for i, (m, w) in enumerate(zip(maps, want)):
+                if m["map"] != w or m["seqs"] is not None:
+                    return f"map file {i} says {w}, but the map read from it is {m['map']}"
+                for q, l in zip(case["lookups"], m["lookups"]):
+                    if l != w.get(q, []):
+                        return f"map file {i}: lookup of {q!r} returns {l}, the file lists {w.get(q, [])}"
+            return None
+        # --- the FASTA branch
+        if any(f["records"] is None for f in case["files"]) or any(st["enzyme"] not in rules for st in sets):
+            return None  # malformed file / unknown enzyme: compared with the model only
+        if case["pg"] is not None and any("_entrapment" in x for g in case["pg"] for x in g):
+            return None  # entrapment renaming is outside the property text: compared with the model only
+        rule = self._maps_rule(case)
+        wants = []
+        for st in sets:
+            recs = [r for f in case["files"] for r in db_records(f["records"], rule, st["db"], special_list(st["special"]))]
+            ids = [r[0] for r in recs]
+            mode = eff_mode(st["enzyme"], st["digestion"])
+            wants.append({"recs": recs, "distinct": len(set(ids)) == len(ids), "mode": mode,
+                          "rejects": mode != "none" and any(r[1] == "" for r in recs)})
+        if isinstance(maps, dict):
+            if maps["err"] == "index_error" and any(w["rejects"] for w in wants):
+                return None  # an empty sequence is rejected by full / semi digestion
+            return f"building the list of maps raised {maps['err']}"
+        if len(maps) != len(sets):
+            return f"{len(sets)} digestion parameter sets but {len(maps)} maps"
+        for i, (st, w, m) in enumerate(zip(sets, wants, maps)):
+            if not w["distinct"]:
+                continue
+            r = rules[st["enzyme"]]
+            hashed = w["mode"] == "none"
+            want = listing(w["recs"], (r["pre"], r["not_post"], r["post"]), st["min"], st["max"], w["mode"], st["mc"], st["met"], hashed)
+            where = (f"map {i} of {len(sets)} (enzyme={st['enzyme']}, digestion={st['digestion']}, length {st['min']}-{st['max']}, "
+                     f"{st['mc']} missed cleavages, special-aas={st['special']}, db={st['db']}, met={st['met']})")
+            if m["map"] != want:
+                k = next(k for k in sorted(set(m["map"]) | set(want)) if m["map"].get(k) != want.get(k))
+                return f"{where}: entry {k!r} is {m['map'].get(k)}, but the proteins of the database whose digestion under THIS parameter set yields it are {want.get(k)}"
+            for q, l in zip(case["lookups"], m["lookups"]):
+                if isinstance(l, dict):
+                    return f"{where}: get_proteins({q!r}) raised {l['err']}"
+                if hashed:
+                    if st["min"] <= len(q) <= st["max"]:
+                        ws = sorted(pid for pid, seq in w["recs"] if q in seq)
+                        if l != ws:
+                            return f"{where}: non-specific lookup of {q!r}: {l}, but the sequences containing it are {ws}"
+                elif l != want.get(q, []):
+                    return f"{where}: lookup of {q!r}: {l} differs from the entry {want.get(q, [])}"
+        # --- maps written to files under each parameter set and loaded as a list read back unchanged
+        if "via_files" in impl_out:
+            vf = impl_out["via_files"]
+            if isinstance(vf, dict):
+                return f"loading the written map files raised {vf['err']}"
+            if vf != [m["map"] for m in maps]:
+                i = next((i for i, (a, b) in enumerate(zip(vf, maps)) if a != b["map"]), None)
+                return f"the maps written per parameter set and loaded through --peptide_protein_map differ from the digested ones (first at {i} of {len(maps)}; {len(vf)} loaded)"
+        return None
+
+    def _maps_features(self, case, impl_out):
+        f = ["kind=maps", "maps_entry=" + case["entry"], "maps_pattern=" + case["pattern"], "files=%d" % len(case["files"])]
+        sets = self._maps_sets(case)
+        if isinstance(sets, list):
+            f.append("maps_sets=%d" % len(sets))
+            for fld in LIST_FIELDS + ("db", "met"):
+                if len({str(st[fld]) for st in sets}) > 1:
+                    f.append("maps_sets_differ_in=" + fld)
+            if len(sets) > 1 and len({json_key(st) for st in sets}) < len(sets):
+                f.append("maps_equal_sets_in_list")
+            if case["entry"] != "objs" and any(len(v) == 1 for v in case["lists"].values()) and len(sets) > 1:
+                f.append("maps_option_given_once_for_all_sets")
+        else:
+            f.append("maps_unequal_lengths")
+        if case["entry"] != "objs":
+            f.append("maps_parser=" + case["parser"])
+            f.append("parse=" + rule_of_flags(case["flags"]))
+        if case["pg"] is not None:
+            f.append("maps_protein_groups_file" + ("_with_entrapment" if any("_entrapment" in x for g in case["pg"] for x in g) else ""))
+        if case["files"] and case["mapfiles"]:
+            f.append("maps_mapfiles_next_to_fasta")
+        if isinstance(impl_out, dict):
+            m = impl_out.get("maps")
+            if isinstance(m, dict):
+                f.append("maps_err=" + str(m.get("err")))
+            elif isinstance(m, list):
+                if len(m) > 1:
+                    f.append("maps_all_equal" if all(x["map"] == m[0]["map"] for x in m) else "maps_differ")
+                    if isinstance(sets, list) and len(sets) == len(m):
+                        sp = [i for i in range(1, len(m)) if {k: v for k, v in sets[i].items() if k != "special"} == {k: v for k, v in sets[0].items() if k != "special"}
+                              and sets[i]["special"] != sets[0]["special"] and m[i]["map"] != m[0]["map"]]
+                        if sp:
+                            f.append("maps_differ_by_special_residues_only")
+                if any(x["seqs"] is not None for x in m):
+                    f.append("hash_keys")
+                if any(isinstance(l, list) and l for x in m for l in x["lookups"]):
+                    f.append("lookup_hit")
+            if "via_files" in impl_out:
+                f.append("maps_written_and_loaded_as_list")
+        return f
+
+    def _maps_nontrivial(self, case, impl_out):
+        m = impl_out.get("maps") if isinstance(impl_out, dict) else None
+        if not isinstance(m, list) or not m:
+            return False
+        return any(len(v) >= 2 or any(x.startswith("REV__") for x in v) for mm in m for v in mm["map"].values())
+
+    def _maps_shrink(self, case):
+        import copy
+
+        if case["entry"] == "objs":
+            if len(case["objs"]) > 1:
+                for i in range(len(case["objs"])):
+                    c = copy.deepcopy(case)
+                    del c["objs"][i]
+                    yield c
+        else:
+            n = max(len(v) for v in case["lists"].values())
+            if n > 1:
+                for i in range(n):
+                    c = copy.deepcopy(case)
+                    for f in LIST_FIELDS:
+                        if len(c["lists"][f]) > 1 and i < len(c["lists"][f]):
+                            del c["lists"][f][i]
+                    yield c
+            for f in LIST_FIELDS:  # an option given once -> written out for every set, and the other way round
+                if len(case["lists"][f]) > 1 and len(set(map(str, case["lists"][f]))) == 1:
+                    c = copy.deepcopy(case)
+                    c["lists"][f] = c["lists"][f][:1]
+                    yield c
+        for flag, empty in (("via_files", False), ("pg", None)):
+            if case.get(flag):
+                c = copy.deepcopy(case)
+                c[flag] = empty
+                yield c
+        if case["files"] and case["mapfiles"]:
+            c = copy.deepcopy(case)
+            c["mapfiles"] = []
+            yield c
+        if not case["files"] and len(case["mapfiles"]) > 1:
+            for i in range(len(case["mapfiles"])):
+                c = copy.deepcopy(case)
+                del c["mapfiles"][i]
+                yield c
+
     # ------------------------------------------------------------------ bookkeeping
     def nontrivial(self, case, impl_out):
+        if case["kind"] == "maps":
+            return self._maps_nontrivial(case, impl_out)
         if not isinstance(impl_out, dict) or "map" not in impl_out.get("main", {}):
             return False
         m = impl_out["main"]["map"]
         return any(len(v) >= 2 or any(x.startswith("REV__") for x in v) for v in m.values())
 
     def features(self, case, impl_out):
+        if case["kind"] == "maps":
+            return self._maps_features(case, impl_out)
         f = ["kind=" + case["kind"], "files=%d" % len(case["files"]), "parse=" + case["parse_id"]]
         if any(fl["records"] is None for fl in case["files"]):
             f.append("malformed_file")
@@ -863,6 +1443,8 @@ class P(Prop):
     def shrink(self, case):
         import copy
 
+        if case["kind"] == "maps":
+            yield from self._maps_shrink(case)
         if case["kind"] == "params":
             if len(case["params"]) > 1:
                 for i in range(len(case["params"])):
